@@ -30,7 +30,7 @@ type c07State struct {
 }
 
 type c07In struct {
-	Kind  string // WRITE (upload / compose / copy), PATCH, DELETE, READMETA, READMEDIA
+	Kind  string // WRITE (upload / compose / copy), APPEND (compose [self, suffix]), PATCH, DELETE, READMETA, READMEDIA
 	Id    string // WRITE: write id;  PATCH: tag
 	Cond  string // "", "absent", "gen"    (gen: the generation created by write CondW)
 	CondW string
@@ -93,6 +93,17 @@ var c07Model = porcupine.Model{
 		case "WRITE":
 			if c07CondHolds(s, in) {
 				return out.Class == "ok", c07State{Exists: true, W: in.Id, Meta: 1}
+			}
+			return out.Class == "precond", s
+		case "APPEND":
+			// compose [this object, a static suffix] onto this object, optionally conditioned on the generation of the
+			// object as a SOURCE: the new content is the current content plus the suffix - the read of the source and
+			// the write of the destination are one step
+			if !s.Exists {
+				return out.Class == "notfound" || out.Class == "precond", s
+			}
+			if c07CondHolds(s, in) {
+				return out.Class == "ok", c07State{Exists: true, W: s.W + "+" + in.Id, Meta: 1}
 			}
 			return out.Class == "precond", s
 		case "PATCH":
@@ -178,7 +189,7 @@ type c07Op struct {
 }
 
 func runC07(run *common.Run) {
-	run.Rule = "case = one history of 3-6 HTTP client goroutines x 5-8 operations on 2 object names of one bucket (memory store and file store): unconditional uploads with unique content, uploads conditioned on non-existence or on a generation the client learned earlier, metageneration-conditioned patches each merging a unique value under the patching client's own metadata key (a patch must keep the other keys), conditioned deletes, compose into and copy onto the contended name from per-operation static sources (copy sources in the same or in a second bucket), metadata GETs and media GETs; recorded at the HTTP client boundary with a logical clock, with bounded holds at the handlers' check-then-act yield points (*.afterCheck, copy.locked) and between the file store's two writes (fs.add.*). Oracle: porcupine per object against a sequential object model in which a generation is identified by the unique write that created it; plus monitors: one generation number never shows two contents and one write never shows two generations; among writers conditioned on the same state at most one succeeds (follows from the model, counted). Part 'fresh': six clients upload six different objects (conditioned on non-existence) into a bucket that does not exist yet while a seventh creates it; every acknowledged upload must afterwards be served with the generation it was told. Non-trivial = history with at least two overlapping operations on one object and at least one conditioned write that lost; distinct by history."
+	run.Rule = "case = one history of 3-6 HTTP client goroutines x 5-8 operations on 2 object names of one bucket (memory store and file store): unconditional uploads with unique content, uploads conditioned on non-existence or on a generation the client learned earlier, metageneration-conditioned patches each merging a unique value under the patching client's own metadata key (a patch must keep the other keys), conditioned deletes, compose into and copy onto the contended name from per-operation static sources, self-append composes (the contended object is its own first source, optionally conditioned on its generation as a source) (copy sources in the same or in a second bucket), metadata GETs and media GETs; recorded at the HTTP client boundary with a logical clock, with bounded holds at the handlers' check-then-act yield points (*.afterCheck, copy.locked) and between the file store's two writes (fs.add.*). Oracle: porcupine per object against a sequential object model in which a generation is identified by the unique write that created it; plus monitors: one generation number never shows two contents and one write never shows two generations; among writers conditioned on the same state at most one succeeds (follows from the model, counted). Part 'fresh': six clients upload six different objects (conditioned on non-existence) into a bucket that does not exist yet while a seventh creates it; every acknowledged upload must afterwards be served with the generation it was told. Non-trivial = history with at least two overlapping operations on one object and at least one conditioned write that lost; distinct by history."
 	run.Assumptions = []string{"porcupine v1.3.0", "an upload's own JSON response is used only to learn the generation when it reports the uploader's own MD5 (the handler reads it back after releasing the object lock)", "holds are bounded sleeps, never a verdict"}
 	var hits sync.Map
 	var holds, seq int64
@@ -322,6 +333,29 @@ func c07FreshBuckets(run *common.Run) {
 	}
 }
 
+// c07Identify maps a served content to the write (or chain "base+app1+app2" of a base write and self-appends) that
+// produced it; "" if it is the content of no write.
+func c07Identify(idOfContent map[string]string, body string) string {
+	if w := idOfContent[body]; w != "" {
+		return w
+	}
+	i := strings.Index(body, "+app:")
+	if i < 0 || !strings.HasSuffix(body, "|") {
+		return ""
+	}
+	w := idOfContent[body[:i]]
+	if w == "" {
+		return ""
+	}
+	for _, seg := range strings.Split(strings.TrimSuffix(body[i:], "|"), "|") {
+		if !strings.HasPrefix(seg, "+app:") {
+			return ""
+		}
+		w += "+" + strings.TrimPrefix(seg, "+app:")
+	}
+	return w
+}
+
 const sharedHead, sharedHeadBody = "statichead", "shared head|"
 
 func c07History(run *common.Run, idx int, store string) {
@@ -391,6 +425,10 @@ func c07History(run *common.Run, idx int, store string) {
 				nstatic++
 				sc = scripted{obj: obj, in: c07In{Kind: "WRITE", Id: id, Via: "copy"}, srcs: []string{a}, srcB: common.Pick(r, []string{B, B2})}
 				register(id, "src "+a+" for "+id+"|")
+			case x == 9 || x == 10:
+				a := fmt.Sprintf("static%d", nstatic)
+				nstatic++
+				sc = scripted{obj: obj, in: c07In{Kind: "APPEND", Id: id, Cond: common.Pick(r, []string{"", "gen", "gen"})}, srcs: []string{a}}
 			case x < 12:
 				sc = scripted{obj: obj, in: c07In{Kind: "PATCH", Id: "tag-" + id, Via: fmt.Sprintf("k%d", c%3), Cond: common.Pick(r, []string{"", "gen"}), CondM: int64(r.Intn(2))}} // CondM 1 = use the last metageneration learned; Via = the metadata key this client writes
 			case x < 14:
@@ -413,6 +451,9 @@ func c07History(run *common.Run, idx int, store string) {
 				body := "src " + src + " for " + sc.in.Id + "|"
 				if src == sharedHead {
 					body = sharedHeadBody
+				}
+				if sc.in.Kind == "APPEND" {
+					body = "+app:" + sc.in.Id + "|"
 				}
 				sb := B
 				if sc.srcB != "" {
@@ -507,6 +548,15 @@ func c07History(run *common.Run, idx int, store string) {
 						run.Count("cross_bucket_copies", 1)
 					}
 					out.Class = c07Class(rsp)
+				case in.Kind == "APPEND":
+					self := map[string]any{"name": name}
+					if in.Cond == "gen" {
+						self["objectPreconditions"] = map[string]any{"ifGenerationMatch": strconv.FormatInt(kn[sc.obj].gen, 10)}
+					}
+					body, _ := json.Marshal(map[string]any{"sourceObjects": []map[string]any{self, {"name": sc.srcs[0]}}, "destination": map[string]string{"contentType": "text/plain"}})
+					rsp := cl.Compose(B, name, body, nil)
+					out.Class = c07Class(rsp)
+					run.Count("self_append_composes", 1)
 				case in.Kind == "PATCH":
 					body, _ := json.Marshal(map[string]any{"metadata": map[string]string{in.Via: in.Id}})
 					rsp := cl.Patch(B, name, body, q)
@@ -565,7 +615,7 @@ func c07History(run *common.Run, idx int, store string) {
 					if rsp.OK() {
 						out.Exists = true
 						regMu.Lock()
-						out.W = idOfContent[string(rsp.Body)]
+						out.W = c07Identify(idOfContent, string(rsp.Body))
 						regMu.Unlock()
 						if out.W == "" {
 							out.Class = "other:content is not the content of any single write: " + clipS(string(rsp.Body))
@@ -591,7 +641,7 @@ func c07History(run *common.Run, idx int, store string) {
 		out := c07Out{Class: c07Class(rsp)}
 		if rsp.OK() {
 			out.Exists = true
-			out.W = idOfContent[string(rsp.Body)]
+			out.W = c07Identify(idOfContent, string(rsp.Body))
 			out.Meta, _ = strconv.ParseInt(rsp.Header.Get("X-Goog-Metageneration"), 10, 64)
 			if out.W == "" {
 				out.Class = "other:final content is not the content of any single write: " + clipS(string(rsp.Body))
